@@ -201,6 +201,20 @@ func Checks() map[string]*simcore.Check {
 			Gen:        genC17, Decode: decodePlan, Run: runPlan, Shrink: shrinkPlan,
 			ProbeNames: []string{"recover-done", "recover-refused", "recover-inside-buffer", "recover-across-buffer-boundary", "recover-on-disk", "recoverable-roots", "disk-image-checked", "history-tail-pruned"},
 		},
+		"C20": {
+			ID: "C20", Engine: "pathdbsim", Level: "fault_enumeration",
+			Rule: "plan = knobs (maxDiffLayers 2-6, tiny write buffers, history limits, trienode histories on/off, sync/async flush, journal in KV or in a journal file) + 1-3 incarnations of 5-80 operations (Update with forks, Commit, Recover) each ended by a clean Journal+Close+reopen or left running; every key-value mutation unit (single put/delete or one atomic batch, SyncKeyValue barriers) and every file mutation/fsync of the history freezers and the journal file is recorded with one global sequence number. The run is then cut after every sequence number (quick: 40 sampled cuts, half of them right before/after a key-value unit) and each cut is materialised as a process-crash image and 1-3 power-loss images (per file a drawn prefix of its unsynced writes, torn or zero-filled last write; key-value store minus up to 4 unsynced trailing units) and the real pathdb.New reopens on it. Oracle per reboot: opens without panic/log.Crit; the raw flat-state and trie-node key spaces are exactly the model state whose root/id the store records; state (and trienode) history head == disk layer id, tail <= persisted id and within the limit; layers above the persisted state only if the image holds a journal for that disk root and then exactly one recorded journal's layers, each reading as its model state; a journal completed right before a process crash is used; Recoverable agrees with the model for every state, Recover to a random and to the deepest recoverable root restores that state (C17 oracle), two new Updates and a Commit succeed. evaluations = runs, reboots = crash states reopened. Non-trivial = run with >= 1 flatten and > 2 reboots; distinct = distinct model-state fingerprints.",
+			Assumptions: []string{
+				"a key-value batch is atomic (one WAL record); unsynced key-value units are lost as a suffix of at most 4 units in power-loss images (SyncKeyValue is the barrier); directory operations are durable immediately, file data at fsync of that file",
+				"reboots run with synchronous flushing (a legal configuration change across a restart)",
+				"the recorded run itself is judged by the C16/C17 oracles; cuts are taken from a run those oracles accepted",
+			},
+			Components: simcore.Components{Real: append([]string{"triedb/pathdb loadLayers/loadJournal/repairHistory/truncateFromHead/Recover on materialised crash states", "core/rawdb resettable freezer open/repair (recompiled onto simos)"}, realComponents...), Stub: stubComponents},
+			Perturbed:  []string{"order of freezer table writes and batch contents (map iteration): cut positions shift between executions, replays fall back to full enumeration"},
+			Runs:       map[string]int{"quick": 160, "thorough": 2000},
+			Gen:        genC20, Decode: decodePlan, Run: runCrash, Shrink: shrinkPlan,
+			ProbeNames: []string{"journal-loaded-after-crash", "journal-absent-or-discarded-after-crash", "rollback-after-crash", "rebooted-nonempty", "rebooted-empty", "recover-done", "flatten"},
+		},
 		"C22": {
 			ID: "C22", Engine: "pathdbsim", Level: "exploration",
 			Rule: "plan = the C16 layer-tree workload (forks, destruct/recreate, deletions overlapping across layers, tiny write buffers, Commit, Journal+reopen) with iterator reads by the main actor and 1-3 iterator actors: fast (merged) and binary account/storage iterators at random live or dropped roots with seek = zero / exact key / just after a key / max; every Next() is a gate, so flattening and flushing proceed between steps. Drained sequence must be a prefix of the ascending live entries of the model state from the seek position with equal values; complete when the iterator ends without error; an error only when a tree-changing operation overlapped the iteration; no iterator for a dropped root. Non-trivial = at least one non-empty complete iteration and one flatten; distinct = distinct (schedule, model states) fingerprints.",
